@@ -255,7 +255,7 @@ func c03Run(c *fw.Ctx) {
 	e := &fw.SeqExplorer{
 		C: c, NOps: len(c03Sigma),
 		FullDepth: fw.Pick(c, 3, 4),
-		MaxDepth:  fw.Pick(c, 7, 9),
+		MaxDepth:  fw.Pick(c, 8, 10),
 		Run: func(seq []int) (string, bool, bool) {
 			var key string
 			var ext, nt bool
@@ -299,6 +299,7 @@ var c03Dialogues = []c03Dialogue{
 	{"one-txn", []string{"HELO x", "MAIL FROM:<a@x.test>", "RCPT TO:<r1@x.test>", "DATA", "Subject: one", "", "body one", ".", "QUIT"}},
 	{"two-txn", []string{"EHLO x", "MAIL FROM:<a@x.test>", "RCPT TO:<r1@x.test>", "RCPT TO:<r2@x.test>", "DATA", "Subject: first", "", "..stuffed", "first body", ".",
 		"MAIL FROM:<b@x.test>", "RCPT TO:<r2@x.test>", "DATA", "Subject: second", "", "second body", ".", "QUIT"}},
+	{"ehlo-mid-transaction", []string{"EHLO x", "MAIL FROM:<a@x.test>", "RCPT TO:<r1@x.test>", "EHLO again", "MAIL FROM:<b@x.test>", "RCPT TO:<r2@x.test>", "DATA", "Subject: e", "", "after ehlo", ".", "QUIT"}},
 	{"three-txn-rset", []string{"HELO x", "MAIL FROM:<a@x.test>", "RCPT TO:<r1@x.test>", "DATA", "Subject: t1", "", "b1", ".",
 		"MAIL FROM:<a@x.test>", "RCPT TO:<r1@x.test>", "RSET",
 		"MAIL FROM:<c@x.test>", "RCPT TO:<r1@x.test>", "RCPT TO:<r1@x.test>", "DATA", "Subject: t3", "", "b3", ".", "QUIT"}},
@@ -385,7 +386,7 @@ func c03CutExec(c *fw.Ctx, cas c03CutCase) (nontrivial bool) {
 				from, rcpts = strings.TrimSuffix(strings.TrimPrefix(line, "MAIL FROM:<"), ">"), nil
 			case "RCPT":
 				rcpts = append(rcpts, strings.TrimSuffix(strings.TrimPrefix(line, "RCPT TO:<"), ">"))
-			case "RSET":
+			case "RSET", "EHLO", "HELO":
 				rcpts = nil
 			case "DATA":
 				inData = true
